@@ -132,8 +132,29 @@ class Grammar(object):
         try:
             prec = [tuple(x) for x in ast.literal_eval(node)]
         except Exception:
-            raise AnalysisError('precedence is not a literal')
+            prec = self._evaluate_constant(m, node)
+            if not (isinstance(prec, (list, tuple)) and prec and all(isinstance(x, (list, tuple)) and x and all(isinstance(y, str) for y in x) for x in prec)):
+                raise AnalysisError('precedence is not a constant table of (assoc, token, ...) rows')
+            prec = [tuple(x) for x in prec]
         return prec, node, m
+
+    def _evaluate_constant(self, m, node):
+        """Python value of a module/class-level constant expression (names of other constants, comprehensions, concatenation):
+        evaluated by the abstract interpreter, which only ever sees constants here."""
+        try:
+            from .absint import Interp, Const, ListV
+            v = Interp(self.model).const_expr(m, node)
+        except Exception:
+            return None
+
+        def conv(x):
+            if isinstance(x, Const):
+                return x.value
+            if isinstance(x, ListV) and not x.has_splice():
+                items = [conv(i) for i in x.items]
+                return None if any(i is None and not (isinstance(j, Const) and j.value is None) for i, j in zip(items, x.items)) else tuple(items)
+            return None
+        return conv(v)
 
     def _lex_tokens(self):
         """Lexer rules in ply's match order: function rules by definition line, then string rules by
@@ -184,6 +205,20 @@ class Grammar(object):
                 if isinstance(n, ast.FunctionDef) and n.name.startswith('p_') and n.name != 'p_error':
                     funcs[n.name] = (m, n)
         self.action_funcs = funcs
+        # `p_x.__doc__ = <constant expression>` in the class body replaces the grammar text ply reads from the function
+        self.doc_overrides = {}
+        for m, c in reversed(model.mro(self.gm, self.gcls)):
+            for n in c.body:
+                if isinstance(n, ast.Assign) and len(n.targets) == 1 and isinstance(n.targets[0], ast.Attribute) \
+                        and n.targets[0].attr == '__doc__' and isinstance(n.targets[0].value, ast.Name) \
+                        and n.targets[0].value.id in funcs:
+                    val = const_string(m, n.value)
+                    if val is None:
+                        val = self._evaluate_constant(m, n.value)
+                    if not isinstance(val, str):
+                        raise AnalysisError('grammar text assigned to %s.__doc__ is not a constant string expression'
+                                            % n.targets[0].value.id)
+                    self.doc_overrides[n.targets[0].value.id] = val
         self.p_error = None
         for m, c in model.mro(self.gm, self.gcls):
             for n in c.body:
@@ -200,7 +235,7 @@ class Grammar(object):
                     raise AnalysisError('precedence table rejected by ply: %s' % e)
         idx = 1
         for m, f in ordered:
-            doc = ast.get_docstring(f, clean=False)
+            doc = self.doc_overrides.get(f.name, ast.get_docstring(f, clean=False))
             if not doc:
                 continue
             try:
@@ -279,7 +314,7 @@ class Grammar(object):
         # pfuncs: (line, file, name, doc) sorted
         pf = []
         for name, (m, f) in self.action_funcs.items():
-            doc = _raw_doc(f)
+            doc = self.doc_overrides.get(name, _raw_doc(f))
             if doc:
                 pf.append((f.lineno, m.path, name, doc))
         pf.sort(key=lambda p: (p[0], str(p[1]), p[2], p[3]))
